@@ -5,7 +5,8 @@ Failures are keyed by the defect site whose signature the oracle's diagnostic li
 (`C13[diag]: rot= centred= shift= shiftdropped=`), so that the three defects of
 `StandardizedMagneticCell::new` listed in known_findings.txt print KNOWN-FINDING while any failure
 outside their signatures is a VIOLATION:
-  origin-shift-dropped   position clauses fail, and with the origin shift replaced by zero every input atom lands on a
+  origin-shift-dropped   position clauses fail (or, when the dropped shift happens to be the anti-translation of a type-IV group,
+                         only moment clauses), and with the origin shift replaced by zero every input atom lands on a
                          std_mag_cell site and every site is reached (Transformation::transform_magnetic_cell ignores it)
   moments-rotated        moment clauses fail and std_rotation_matrix is not the identity (moments rotated into the
                          standardized frame, Cartesian rotations taken in the input frame)
@@ -43,15 +44,22 @@ def classify(line, p, mine):
     if other:
         return None
     comps = []
-    if pos:
-        if flags.get("shiftdropped") != "1":
-            return None
+    dropped = flags.get("shiftdropped") == "1"
+    if pos and not dropped:
+        return None
+    # with the shift dropped the cell is displaced by L^-1 s; when that vector is a translation of the family group
+    # (the anti-translation of a type-IV group) the positions still coincide and only the moment clauses fail
+    if pos or (mom and dropped):
         comps.append("origin-shift-dropped")
     if mom:
-        trig = [name for name, f in (("rotated", "rot"), ("centred", "centred")) if flags.get(f) == "1"]
-        if not trig:
+        # collinear (scalar) moments do not depend on the frame: only the site map can explain them
+        collinear = magpipe.seg(line, "kind") == "collinear"
+        trig = [name for name, f in (("rotated", "rot"), ("centred", "centred"))
+                if flags.get(f) == "1" and not (collinear and f == "rot")]
+        if trig:
+            comps.append("moments-" + "+".join(trig))
+        elif not dropped:
             return None
-        comps.append("moments-" + "+".join(trig))
     return ":".join(comps)
 
 
